@@ -327,6 +327,7 @@ def run_shard(spec, shard):
         g = Q.QGen(r, names=list(dict.fromkeys(dn))[:8] + names[:3], strings=list(dict.fromkeys(ds))[:6] + ["a", "'", "\\", "\n"],
                    registry=registry, numbers=dnum[:8] + long_floats, filters=True, max_filter_depth=2)
         g.doc = doc
+        g.cheap_filters = V.count_nodes(doc) > 120     # cost bound: no quadratic embedded queries over wide values
         g.evalr = ev.Evaluator(registry)
         base = g.guided_query(doc, 0, 2, hit_p=0.9)
         segs = base[2]
